@@ -461,6 +461,12 @@ def l5(model: Model, rep: Report):
     for p in [q for q in paths if q.exit == "return"]:
         lp = loop_of(p)
         if lp is None:
+            stored = [y for y in subterms(p.value, lambda y: y[0] == "attr" and y[1] == s and y[2] != "_circuit_graph")] if p.value is not None else []
+            if stored:
+                # a way out that does not walk the graph and answers from something kept on the block: the listing of an earlier call
+                rep.fail("C02.L5", construct + "[every-call-walks-the-graph]", f.loc, found=f"return {show(p.value)[:100]} if {show(p.cond)[:100]}", required="the listing is expanded from self._circuit_graph on every call",
+                         what="the listing is answered from state stored on the block: operations added below this block afterwards (through a nested handle) are missing", detail="stored-listing")
+                continue
             raise AnalysisError(f"{construct}: no loop")
         dom = node_iterator_domain(lp.term)
         base = strip_identity_wrappers(lp.term)
@@ -468,6 +474,8 @@ def l5(model: Model, rep: Report):
                   required="all nodes of self._circuit_graph in listing order", what="the listing does not range over all added nodes", detail="domain")
         elem = ("bound", "for", lp.node.lineno, show(lp.term))
         res = p.value
+        if res is not None and res[0] == "call" and res[1] in ("list", "tuple") and len(res[2]) == 1 and not res[3] and res[2][0][0] == "var":
+            res = res[2][0]         # ``return list(result)``: a copy of the collected listing
         bad = []
         for bp in lp.extra["paths"]:
             exts = [c for e in bp.events if e.kind == "effect" for c in find_calls(e.term, "extend") if c[1][1] == res]
